@@ -584,7 +584,7 @@ def create_raggedarray(path, atom=(), dtype='float64', metadata=None,
                        overwrite=overwrite)
     # the current ragged array has one element, which is an empty array
     # but we want an empty ragged array => we should get rid of the indices
-    create_array(path=ra._indicespath, shape=(0,2), dtype=np.int64,
+    create_array(path=ra._indicespath, shape=(0,2), dtype=indextype,
                  overwrite=True)
     ra._update_arraydescr(len=0, size=0)
     return RaggedArray(ra.path, accessmode=accessmode)
